@@ -171,7 +171,7 @@ def explore(ctx, scale=1.0):
         b = gen.gen_block(rng, rng.choice(gen.BLOCK_TYPES + ["map", "layer", "class"]), depth=rng.choice([1, 2, 3]), max_items=8)
         docs.append((gen.render(b, gen.Layout(rng, plain=rng.random() < .5)), "random"))
     P = trees.parser(False, False)
-    pp_cases, treqs, tkeep, creqs, ckeep = [], [], [], [], []
+    pp_cases, treqs, tkeep, creqs, ckeep, rl_cases = [], [], [], [], [], []
     for idx, (text, kind) in enumerate(docs):
         try:
             d = MapfileToDict().transform(P.parse(text))
@@ -210,7 +210,10 @@ def explore(ctx, scale=1.0):
             continue
         if idx % 4 == 0:
             pp_cases.append((text[:60], plain, ppcommon.DEFAULT))
+        if idx % 2 == 0:
+            rl_cases.append((text[:200], plain, gen.plain_dict(d2)))
     ppcommon.pp_correspondence(ctx, pp_cases)
+    ppcommon.reload_correspondence(ctx, rl_cases)
     for (text, real), ans in zip(tkeep, core.lean_call(treqs)):
         if ans.get("err") == "UNSUPPORTED":
             ctx.count("corr:model UNSUPPORTED"); continue
@@ -241,6 +244,6 @@ def classified(ctx, creqs, ckeep):
 def main(ctx):
     if ctx.replay:
         print(open(ctx.replay).read()[:4000]); return
-    core.proof_leg(ctx, ["Mappy.Props.C01", "Mappy.Props.C01Attr", "Mappy.Props.C01Class"])
+    core.proof_leg(ctx, ["Mappy.Props.C01", "Mappy.Props.C01Attr", "Mappy.Props.C01Class", "Mappy.Props.C04Doc"])
     explore(ctx)
     core.finish(ctx, LEVEL_NOTE, RULE, search=lambda c: explore(c, scale=2.0))
